@@ -39,6 +39,8 @@ def sa_bases(S):
         ("join-owner", "orm", lambda: sa.select(I).join(I.owner), False),
         ("outerjoin-owner", "orm", lambda: sa.select(I).outerjoin(I.owner), False),
         ("join-owner-explicit", "orm", lambda: sa.select(I).join(O, I.owner_id == O.id), False),
+        ("join-home", "orm", lambda: sa.select(I).join(I.home), False),
+        ("legacy-join-home", "legacy", lambda: S.session.query(I).join(I.home), False),
         ("join-owner-region", "orm", lambda: sa.select(I).join(I.owner).join(O.region), False),
         ("outerjoin-owner-region", "orm", lambda: sa.select(I).outerjoin(I.owner).outerjoin(O.region), False),
         ("join-owner-where", "orm", lambda: sa.select(I).join(I.owner).where(O.rank >= 0), False),
@@ -151,6 +153,10 @@ def check_case(case, fenced=True):
                 continue
             if kind == "core" and navigates(t):
                 continue   # Core documents that it cannot navigate (NotImplementedError): outside this cell
+            if "home" in name and "A8" in known_ids("C04") and any(
+                    m == "Region" and p != ("home",) for p, m in rel.to_one_hops(t, "Item").items()):
+                stats["excluded_a8"] = stats.get("excluded_a8", 0) + 1
+                continue
             if "region" in name and "A8" in known_ids("C04") and any(
                     m == "Region" and p != ("owner", "region") for p, m in rel.to_one_hops(t, "Item").items()):
                 stats["excluded_a8"] = stats.get("excluded_a8", 0) + 1
